@@ -27,21 +27,26 @@ theorem inv_nil_iff (p : Sha) : Inv [] p ↔ Reusable p := by
   · rintro ⟨hs, hc, hb⟩
     exact ⟨[], [], p.buffer, rfl, rfl, rfl, by simpa using hb, by omega, by simp [hs, hashBlocks_lt], by simp [hc]⟩
 
-theorem updateLoop_buffer_length : ∀ (data : List UInt8) (cur : Nat) (p : Sha),
-    (updateLoop data cur p).buffer.length = p.buffer.length := by
+theorem updateLoop_buffer_length : ∀ (data : List UInt8) (cur : Nat) (p : Sha), cur < 64 → p.buffer.length = 64 →
+    (updateLoop data cur p).buffer.length = 64 := by
   intro data
   induction data with
-  | nil => intro cur p; rfl
+  | nil => intro cur p _ h; exact h
   | cons b data ih =>
-    intro cur p
+    intro cur p hc h
     simp only [updateLoop]
-    split <;> rw [ih] <;> simp [writeByteBlock]
+    split
+    · exact ih 0 _ (by omega) (by simp [writeByteBlock, wr_length _ _ _ (by omega : cur < p.buffer.length), h])
+    · exact ih (cur + 1) _ (by omega) (by simp [wr_length _ _ _ (by omega : cur < p.buffer.length), h])
 
-theorem foldl_update_buffer_length (chunks : List (List UInt8)) : ∀ p : Sha,
-    (chunks.foldl update p).buffer.length = p.buffer.length := by
+theorem foldl_update_buffer_length (chunks : List (List UInt8)) : ∀ p : Sha, p.buffer.length = 64 →
+    (chunks.foldl update p).buffer.length = 64 := by
   induction chunks with
-  | nil => intro p; rfl
-  | cons c cs ih => intro p; simp only [List.foldl_cons]; rw [ih]; exact updateLoop_buffer_length _ _ _
+  | nil => intro p h; exact h
+  | cons c cs ih =>
+    intro p h
+    simp only [List.foldl_cons]
+    exact ih _ (updateLoop_buffer_length _ _ _ (by rw [bufferPos_eq]; omega) h)
 
 /-- every chunking, on every reusable hasher -/
 theorem digest_chunks (p : Sha) (hp : Reusable p) (chunks : List (List UInt8)) (hlen : chunks.flatten.length < 2 ^ 61) :
